@@ -59,5 +59,9 @@ def replay(ctx, rp):
     c = rp.get("failure", {}).get("case")
     if not c:
         return {"fails": False, "note": "replay file carries no concrete input", "payload": rp}
-    r = X.run(ctx, "c01", 1, cases=[c], ref=ctx.tables_changed(SECTIONS))
+    if "ops_hist" in c:      # a history case found by the search
+        from props import _worldcheck as W
+        r = W.run(ctx, "c05", 1, 1, cases=[c])
+    else:
+        r = X.run(ctx, "c01", 1, cases=[c], ref=ctx.tables_changed(SECTIONS))
     return {"fails": bool(r["failures"]), "failures": r["failures"]}
